@@ -125,6 +125,23 @@ Section Statements.
     intros p H. split; [exact (number_fst_bounds off msgs p H)|exact (number_nth off msgs p H)].
   Qed.
 
+  (* the server loop around it: every tick hands over ALL pending messages with offset = all_msgs_last_processed_len;
+     whatever the chunk limit (>= 1) and however many messages are pending, once the ticks have run out of work
+     filtered_msgs holds exactly the indices of the messages the set keeps, in order, nothing lost behind the
+     chunk limit, and everything is accounted as processed (kept + dropped = received) *)
+  Theorem C12_stream_rounds_complete fs all chunk fuel :
+    1 <= chunk -> (length all <= fuel)%nat -> all <> [] ->
+    stream_rounds matches (S fuel) (build fs) all chunk [] 0 =
+    ((if filters_active (build fs) then map fst (filter (fun p => keep_set_spec matches fs (snd p)) (number 0 all)) else []),
+     N.of_nat (length all)).
+  Proof.
+    intros Hc Hf Hn. destruct (filters_active (build fs)) eqn:Ha.
+    - rewrite (stream_rounds_spec matches (build fs) all chunk Ha Hc) by (cbn; lia).
+      cbn [N.to_nat skipn app]. rewrite matching_idxs_spec. f_equal. f_equal. apply filter_ext.
+      intros p. apply match_filters_build.
+    - exact (stream_rounds_inactive matches (build fs) all chunk fuel Ha Hn).
+  Qed.
+
   (* export plugin: the configured set, the lifecyclesToKeep filter as one more negative filter, and the
      recorded-time window; written = kept messages in order, counters consistent *)
   Theorem C12_export_spec (rtime : M -> N) fs lc tf tt msgs :
@@ -231,8 +248,8 @@ Example C12_export_lifecycles_nonvacuous :
   let c := mkCase [(1, true, [false; true; false; true; false; true])] 6 None 0 1073741824 true None None
                   [0; 1000; 2000; 3000; 4000; 5000] 3 true [0; 0; 1; 1; 2; 2] [true; true; true; true; true; true]
                   [[false; false; false; false; true; true]; [false; false; false; false; false; false];
-                   [true; true; false; false; false; false]] false in
-  exists r, run_C12 c = T [fst r; fst (snd r); snd (snd r); T [T [L 0; L 4]; L 2; L 6; T [L 0; L 2]]; T []].
+                   [true; true; false; false; false; false]] false 2 in
+  exists r, run_C12 c = T [fst r; fst (snd r); snd (snd r); T [T [L 0; L 4]; L 2; L 6; T [L 0; L 2]]; T []; T [T [L 0; L 2; L 4]; L 6]].
 Proof. cbv zeta. eexists (_, (_, _)). vm_compute. reflexivity. Qed.
 
 Print Assumptions C12_keep_rule_meaning.
@@ -246,6 +263,7 @@ Print Assumptions C12_impls_agree.
 Print Assumptions C12_set_keeps_subset_of_stream.
 Print Assumptions C12_inactive_keeps_all.
 Print Assumptions C12_matching_idxs_spec.
+Print Assumptions C12_stream_rounds_complete.
 Print Assumptions C12_export_spec.
 Print Assumptions C12_export_lifecycles_spec.
 Print Assumptions C12_export_lifecycles_monotone.
